@@ -175,6 +175,51 @@ def case_model(c):
 _ddp_cache = {}
 
 
+class _ClockMeta(type):
+    def __instancecheck__(cls, obj):
+        return isinstance(obj, _dt.datetime)
+
+
+def fake_clock(fixed):
+    """a `datetime` class whose now()/today() return `fixed` (naive = UTC wall clock); everything else is the real class"""
+    class FakeDatetime(_dt.datetime, metaclass=_ClockMeta):
+        @classmethod
+        def now(cls, tz=None):
+            if tz is None:
+                return fixed
+            return fixed.replace(tzinfo=_dt.timezone.utc).astimezone(tz)
+
+        @classmethod
+        def today(cls):
+            return fixed
+
+        @classmethod
+        def utcnow(cls):
+            return fixed
+    return FakeDatetime
+
+
+class clock_at:
+    """harness-side control of the system clock the library reads (modules that did `from datetime import datetime`); TZ is UTC in the harness"""
+    MODS = ("dateparser.utils", "dateparser.date", "dateparser.parser", "dateparser.freshness_date_parser")
+
+    def __init__(self, fixed):
+        self.fixed = fixed
+
+    def __enter__(self):
+        import importlib
+        self.saved = []
+        fk = fake_clock(self.fixed)
+        for m in self.MODS:
+            mod = importlib.import_module(m)
+            self.saved.append((mod, mod.datetime))
+            mod.datetime = fk
+
+    def __exit__(self, *a):
+        for mod, real in self.saved:
+            mod.datetime = real
+
+
 def lib_gdd(c):
     """run the real library on a harness case; returns canonical dict"""
     from dateparser.date import DateDataParser
@@ -189,6 +234,11 @@ def lib_gdd(c):
     if c.get("givenOrder"):
         kw["use_given_order"] = True
     try:
+        if c.get("clock") is not None:
+            with clock_at(c["clock"]):
+                ddp = DateDataParser(settings=st, **kw)
+                r = ddp.get_date_data(c["s"], c.get("fmts"))
+                return canon_dd(r)
         ddp = DateDataParser(settings=st, **kw)
         r = ddp.get_date_data(c["s"], c.get("fmts"))
         return canon_dd(r)
